@@ -16,6 +16,14 @@ class ToolError(Exception):
     pass
 
 
+class HarnessCrash(Exception):
+    """the harness process (which runs the code under test) was killed by a signal: abort on
+    allocation failure, stack overflow, segfault. That is data about the code under test."""
+    def __init__(self, scenario, rc, tail):
+        super().__init__(f"harness {scenario} died with rc={rc}")
+        self.scenario, self.rc, self.tail = scenario, rc, tail
+
+
 def log(*a):
     print(*a, file=sys.stderr, flush=True)
 
@@ -61,6 +69,8 @@ def harness(scenario, **kw):
         if line.startswith("SUMMARY "):
             summ = json.loads(line[len("SUMMARY "):])
     if summ is None:
+        if rc < 0 or rc in (132, 134, 136, 139):
+            raise HarnessCrash(scenario, rc, out[-1500:])
         log(out[-4000:])
         raise ToolError(f"harness {scenario} produced no summary (rc={rc})")
     return summ
